@@ -732,6 +732,8 @@ type rangeIter struct {
 	pos   int
 	str   string
 	hostm *HostV
+	view  *Str
+	vmax  int
 }
 
 func (in *Interp) rangeInit(v Value) Value {
@@ -769,7 +771,10 @@ func (in *Interp) rangeInit(v Value) Value {
 		return it
 	case *Str:
 		if x.kind != sConc {
-			in.fail("range over symbolic string")
+			// symbolic subject: one byte per rune (exact for ASCII subjects; a feasible byte >= 0x80 ends the path inconclusive)
+			v := in.toView(x)
+			n := in.needMax(v, "range over symbolic string")
+			return &rangeIter{kind: 2, view: v, vmax: n}
 		}
 		return &rangeIter{kind: 1, str: x.conc}
 	case *HostV:
@@ -822,6 +827,22 @@ func (in *Interp) rangeNext(it *rangeIter, x *ssa.Next) Value {
 		idx := it.pos
 		it.pos += sz
 		return TupleV{in.St.True, in.St.Int(int64(idx)), in.St.Int(int64(r))}
+	}
+	if it.kind == 2 {
+		st := in.St
+		if it.pos >= it.vmax {
+			return TupleV{st.False, st.Int(0), st.Int(0)}
+		}
+		pp := st.Int(int64(it.pos))
+		if !in.branch(st.Lt(pp, it.view.length), "range over string: more bytes") {
+			return TupleV{st.False, st.Int(0), st.Int(0)}
+		}
+		b := it.view.at(pp)
+		if !in.branch(st.Lt(b, st.Int(0x80)), "range over string: ASCII byte") {
+			in.fail("range over symbolic string with a non-ASCII byte")
+		}
+		it.pos++
+		return TupleV{st.True, pp, b}
 	}
 	if it.pos >= len(it.keys) {
 		return TupleV{in.St.False, nil, nil}
